@@ -68,6 +68,13 @@ class VLoop(asyncio.SelectorEventLoop):
     def time(self) -> float:
         return self._vnow
 
+    creep = 0.0      # optional: virtual seconds that pass per loop iteration (time normally stands still while callbacks run)
+
+    def _run_once(self):
+        if self.creep:
+            self._vnow += self.creep
+        super()._run_once()
+
     # -- TCP ---------------------------------------------------------------------
     async def create_connection(self, protocol_factory, host=None, port=None, **kw):
         assert self.net is not None
@@ -401,8 +408,30 @@ class SimNet:
         return live[-1] if live else None
 
 
+_REAL_TIME = None
+
+
+def erratic_wall_clock() -> None:
+    """The client's timing is specified on the event loop's clock.  The wall clock may step (NTP, a user setting the
+    date): rigs run with time.time() jumping by hours in both directions between calls, so that any dependence on
+    it shows.  (The harness itself measures with time.perf_counter.)"""
+    global _REAL_TIME
+    import time
+    if _REAL_TIME is not None:
+        return
+    _REAL_TIME = time.time
+    state = {"n": 0, "off": 0.0}
+
+    def fake():
+        state["n"] += 1
+        state["off"] += (3600.0, -1800.0, 0.001, 86400.0, -90000.0)[state["n"] % 5]
+        return _REAL_TIME() + state["off"]
+    time.time = fake
+
+
 def new_loop() -> tuple[VLoop, SimNet]:
     import os
+    erratic_wall_clock()
     forced = os.environ.get("VERIF_DEBUGLOG")
     log_debug(None if forced is None else forced == "1")
     loop = VLoop()
